@@ -20,7 +20,7 @@ def L (s : String) : Txt := s.toList
 
 /-- Class of the Python exception a generator terminates with. -/
 inductive GenErr where
-  | schemaError | keyError | valueError | recursionError | assertionError | overflowError | typeError
+  | schemaError | keyError | valueError | recursionError | assertionError | overflowError | typeError | attributeError
   | unmodelled            -- a branch the validator excludes (never a default: the driver reports it)
   deriving DecidableEq, Repr
 
@@ -476,7 +476,7 @@ def tableHeader : Txt := "// Copyright 2026 DeepMind Technologies Limited
 ".toList
 
 def tableOpen : Txt := (L "std::vector<const char*> MJCF[] = {\n")
-def tableMidRest : Txt := "};
+def tableMidRest : Txt := ";
 // clang-format on
 
 const int nMJCF = sizeof(MJCF) / sizeof(MJCF[0]);
@@ -486,7 +486,7 @@ const int nMJCF = sizeof(MJCF) / sizeof(MJCF[0]);
 // '|'-separated; kind: e=exclusive t=together r=requires o=oneof
 // clang-format off
 const mjXConstraintDef MJCF_constraints[] = {\n".toList
-def tableMid : Txt := '\n' :: tableMidRest
+def tableMid : Txt := '\n' :: '}' :: tableMidRest
 def tableEnd : Txt := "\n};
 // clang-format on
 
@@ -724,5 +724,8 @@ def genDefault (s : Schema N) (structs : Structs) : Except GenErr Txt :=
   match defaultTables s structs with
   | .error e => .error e
   | .ok ts => .ok (renderDefault ts)
+
+/-! The long text constants are opaque to the elaborator (nothing is ever proved by computing with them). -/
+attribute [irreducible] mapHeader mapFooter tableHeader tableMidRest tableEnd defaultHeader
 
 end MjProof.SchemaGen
